@@ -210,3 +210,17 @@ func VH_C04_RealmLines() {
 	r.parseLines("R", lines)
 	zzverif.Reach("returned")
 }
+
+// VH_C11_GetKDCsConcurrent: two goroutines resolve KDCs from one shared configuration.
+func VH_C11_GetKDCsConcurrent() {
+	n := zzverif.Param("n")
+	orig := vhServers(n, ":88")
+	c := &Config{}
+	c.Realms = []Realm{{Realm: "R", KDC: append([]string{}, orig...)}}
+	var c1, c2 int
+	var m1, m2 map[int]string
+	zzverif.Par(func() { c1, m1, _ = c.GetKDCs("R", false) }, func() { c2, m2, _ = c.GetKDCs("R", true) })
+	zzverif.Assert("each-configured-kdc-exactly-once", vhIsPermutation(c1, m1, orig) && vhIsPermutation(c2, m2, orig))
+	zzverif.Assert("configuration-unchanged-by-lookup", strings.Join(c.Realms[0].KDC, ",") == strings.Join(orig, ","))
+	zzverif.Reach("done")
+}
